@@ -3,7 +3,7 @@
    from consistent nodes, every chunking, every native subset per node and every
    interleaving chosen at every fan-in. *)
 From Eino Require Import Base.Util Model.Paradigm Model.StreamOps Model.ParadigmProg
-  Proofs.Paradigm Proofs.ParadigmOps.
+  Proofs.Paradigm Proofs.ParadigmOps Proofs.ParadigmFieldMap.
 From Coq Require Import Lia.
 
 Arguments vsconcat : simpl never.
@@ -258,6 +258,9 @@ Fixpoint prog_ok (p : prog) : Prop :=
   | PBranch _ c alts => cond_ok c /\ (fix all (l : list prog) : Prop :=
                               match l with [] => True | a :: r => prog_ok a /\ all r end) alts
   | PSub w p => wrap_ok w /\ prog_ok p
+  | PMap f => fmap_wf f = true
+  | PCheck _ => True
+  | PLoop _ c body _ => cond_ok c /\ prog_ok body
   end.
 
 Lemma all_forall (l : list prog) :
@@ -275,14 +278,78 @@ Lemma prog_ind' (P : prog -> Prop)
   (HS : forall p q, P p -> P q -> P (PSeq p q))
   (HP : forall ps, Forall P ps -> P (PPar ps))
   (HB : forall id c alts, Forall P alts -> P (PBranch id c alts))
-  (HU : forall w p, P p -> P (PSub w p)) : forall p, P p.
+  (HU : forall w p, P p -> P (PSub w p))
+  (HM : forall f, P (PMap f))
+  (HC : forall m, P (PCheck m))
+  (HL : forall id c body fuel, P body -> P (PLoop id c body fuel)) : forall p, P p.
 Proof.
-  fix IH 1. intros [w id n|p q|ps|id c alts|w p].
+  fix IH 1. intros [w id n|p q|ps|id c alts|w p|f|m|id c body fuel].
   - apply HN.
   - apply HS; apply IH.
   - apply HP. induction ps; constructor; auto.
   - apply HB. induction alts; constructor; auto.
   - apply HU, IH.
+  - apply HM.
+  - apply HC.
+  - apply HL, IH.
+Qed.
+
+(* run-time type check of an any-typed edge *)
+Lemma check_good m s : good (s_check m s) -> good s.
+Proof.
+  intros Hg. apply good_items in Hg. apply good_items.
+  assert (Hin : forall it, In it s ->
+            In (match it with
+                | Val x => if Bool.eqb (is_map x) m then Val x else Bad e_type
+                | Bad e => Bad e
+                end) (s_check m s)).
+  { intros it H. unfold s_check. apply in_map_iff. exists it. split; auto. }
+  destruct m.
+  - right. intros it Hit. specialize (Hin it Hit). destruct it as [[c|mm]|e]; simpl in Hin.
+    + exfalso. destruct Hg as [Hg|Hg]; destruct (Hg _ Hin) as (? & ?); discriminate.
+    + eauto.
+    + exfalso. destruct Hg as [Hg|Hg]; destruct (Hg _ Hin) as (? & ?); discriminate.
+  - left. intros it Hit. specialize (Hin it Hit). destruct it as [[c|mm]|e]; simpl in Hin.
+    + eauto.
+    + exfalso. destruct Hg as [Hg|Hg]; destruct (Hg _ Hin) as (? & ?); discriminate.
+    + exfalso. destruct Hg as [Hg|Hg]; destruct (Hg _ Hin) as (? & ?); discriminate.
+Qed.
+
+Lemma concat_check_lem m s : s <> [] ->
+  agree (vsconcat (s_check m s)) (res_bind (vsconcat s) (v_check m)) /\ s_check m s <> [].
+Proof.
+  intros Hn. split; [|destruct s; [congruence|discriminate]].
+  destruct (vsconcat s) as [v| |] eqn:E.
+  2:{ apply agree_failed; [|apply failed_Err].
+      apply (failed_by_good s); [exact Hn|rewrite E; apply failed_Err|apply check_good]. }
+  2:{ apply agree_failed; [|apply failed_Panic].
+      apply (failed_by_good s); [exact Hn|rewrite E; apply failed_Panic|apply check_good]. }
+  cbn [res_bind].
+  apply vsconcat_ok in E as [(ss & Hss & -> & ->)|(ms & Hms & -> & ->)]; unfold v_check; cbn [is_map];
+    destruct m; cbn [Bool.eqb].
+  - apply agree_failed; [|apply failed_Err].
+    apply all_bad_fails; [exact Hn|]. intros it Hit. apply in_sVS in Hit as (c & ->). simpl. eauto.
+  - assert (Es : s_check false (sVS ss) = sVS ss).
+    { unfold s_check, sVS. rewrite map_map. reflexivity. }
+    rewrite Es, vsconcat_sVS by exact Hss. reflexivity.
+  - assert (Es : s_check true (sVM ms) = sVM ms).
+    { unfold s_check, sVM. rewrite map_map. reflexivity. }
+    rewrite Es, vsconcat_sVM by exact Hms. reflexivity.
+  - apply agree_failed; [|apply failed_Err].
+    apply all_bad_fails; [exact Hn|]. intros it Hit. apply in_sVM in Hit as (c & ->). simpl. eauto.
+Qed.
+
+Lemma sim_check m : sim (fun _ => True) (v_check m) (fun s => Ok (s_check m s)).
+Proof.
+  intros s Hs _. destruct (concat_check_lem m s Hs) as (Ha & Hne).
+  split; auto. intros o H. inversion H. subst. exact Hne.
+Qed.
+
+Lemma sim_fmap f : fmap_wf f = true ->
+  sim (fun x => fmap_dom f x = true) (v_fmap f) (fun s => Ok (s_fmap f s)).
+Proof.
+  intros Hwf s Hs Hd. destruct (concat_fieldMap_lem f s Hwf Hs Hd) as (Ha & Hne).
+  split; auto. intros o H. inversion H. subst. exact Hne.
 Qed.
 
 (* ------------------------------------------------------------------ the run *)
@@ -483,11 +550,62 @@ Section Run.
         eapply Hcf; reflexivity.
   Qed.
 
+  (* cycle: the condition reads its own copy of the body's output through the Collect view
+     and either sends it round again or lets it leave *)
+  Lemma sim_loop pos c body :
+    cond_ok c ->
+    (forall pos, sim (D body) (run_value body) (run_stream mrg pos body)) ->
+    forall fuel,
+      sim (fun x => loop_dom (fun _ => run_value body) (again_value c) (dom_ok body) fuel x = true)
+          (loop_res (fun _ => run_value body) (again_value c) fuel)
+          (loop_res (fun k => run_stream mrg (k :: pos) body) (again_stream c) fuel).
+  Proof.
+    intros (Hany & f & Hc) Hb. induction fuel as [|fuel IH].
+    - intros s Hs Hd. cbn [loop_res]. split; [|discriminate].
+      apply agree_failed; [apply vsconcatR_failed, failed_Err|].
+      destruct (vsconcat s); simpl; [apply failed_Err|apply failed_Err|apply failed_Panic].
+    - cbn [loop_res].
+      set (lv := loop_res (fun _ => run_value body) (again_value c) fuel) in *.
+      set (ls := loop_res (fun k => run_stream mrg (k :: pos) body) (again_stream c) fuel) in *.
+      set (D2 := fun y => again_value c y = Ok true ->
+                          loop_dom (fun _ => run_value body) (again_value c) (dom_ok body) fuel y = true).
+      assert (Htail : sim D2 (fun y => do b <- again_value c y; if b then lv y else Ok y)
+                             (fun o => do b <- again_stream c o; if b then ls o else Ok o)).
+      { intros o Ho Hd.
+        assert (Hcond : agree (view_C vconcat nat_concat c o) (res_bind (vsconcat o) (view_I nat_concat c))).
+        { apply (views_agree_lem val nat vconcat nat_concat c f Hc Hany o Ho). }
+        unfold again_stream, again_value.
+        destruct (failed_dec (vsconcat o)) as [(y & Ey)|Hof].
+        - rewrite Ey in *. cbn [res_bind] in *.
+          destruct (failed_dec (view_I nat_concat c y)) as [(i & Ei)|Hif].
+          + rewrite Ei in *. apply agree_ok_r in Hcond. rewrite Hcond. cbn [res_bind].
+            destruct (Nat.eqb i 0) eqn:Eb.
+            * destruct (IH o Ho) as (Ha & Hne).
+              { intros y' Ey'. assert (y' = y) by congruence. subst y'.
+                apply (Hd y eq_refl). unfold again_value. rewrite Ei. cbn [res_bind]. rewrite Eb. reflexivity. }
+              rewrite Ey in Ha. split; auto.
+            * split; [rewrite vsconcatR_Ok, Ey; reflexivity|intros o' H; inversion H; subst; exact Ho].
+          + assert (Hcf : failed (view_C vconcat nat_concat c o)) by (eapply agree_failed_r; eauto).
+            split.
+            * apply agree_failed; [apply vsconcatR_failed, failed_bind, failed_bind, Hcf|apply failed_bind, failed_bind, Hif].
+            * intros o' H. exfalso. destruct (view_C vconcat nat_concat c o); simpl in H; try discriminate.
+              eapply Hcf; reflexivity.
+        - assert (Hcf : failed (view_C vconcat nat_concat c o)).
+          { eapply agree_failed_r; eauto. apply failed_bind, Hof. }
+          split.
+          + apply agree_failed; [apply vsconcatR_failed, failed_bind, failed_bind, Hcf|apply failed_bind, Hof].
+          + intros o' H. exfalso. destruct (view_C vconcat nat_concat c o); simpl in H; try discriminate.
+            eapply Hcf; reflexivity. }
+      eapply sim_weaken; [|apply (sim_comp _ _ _ _ _ _ (Hb (fuel :: pos)) Htail)].
+      intros x Hx. cbn [loop_dom] in Hx. apply andb_prop in Hx as (H1 & H2). split; [exact H1|].
+      intros y Ey. rewrite Ey in H2. unfold D2. intros Eb. rewrite Eb in H2. exact H2.
+  Qed.
+
   (* the graph-level statement, by induction over the graph *)
   Theorem run_sim_lem : forall p, prog_ok p ->
     forall pos, sim (D p) (run_value p) (run_stream mrg pos p).
   Proof.
-    induction p as [w id n|p q IHp IHq|ps IH|id c alts IH|w p IHp] using prog_ind'; intros Hok pos.
+    induction p as [w id n|p q IHp IHq|ps IH|id c alts IH|w p IHp|f|m|id c body fuel IHb] using prog_ind'; intros Hok pos.
     - destruct Hok as (Hw & Hn). cbn [run_value run_stream].
       eapply sim_weaken; [|apply (sim_wrap w _ _ _ Hw (sim_node n Hn))].
       intros x Hx. unfold D in Hx. cbn [dom_ok] in Hx. split; auto.
@@ -503,6 +621,11 @@ Section Run.
       eapply sim_weaken; [|apply (sim_wrap w _ _ _ Hw (IHp Hp (0 :: pos)%nat))].
       intros x Hx. unfold D in *. cbn [dom_ok] in Hx. apply andb_prop in Hx as (H1 & H2).
       split; auto. intros x2 E2. rewrite E2 in H2. exact H2.
+    - cbn [run_value run_stream]. exact (sim_fmap f Hok).
+    - cbn [run_value run_stream]. eapply sim_weaken; [|apply sim_check]. auto.
+    - destruct Hok as (Hc & Hb). cbn [run_value run_stream].
+      eapply sim_weaken; [|apply (sim_loop pos c body Hc (IHb Hb) fuel)].
+      intros x Hx. exact Hx.
   Qed.
 
   (* the four public paradigms of a compiled graph *)
